@@ -100,7 +100,9 @@ def run_shard(desc, tier, res):
     if desc['mode'] == 'single':  # deviation: exactly ONE statement-like node (or the root) is queried before the edit
         from ..fstnav import live_vs_parse, node_at
         tree0 = ast.parse(src0)
-        targets = [()] + [p for p, n in O.iter_nodes(tree0) if isinstance(n, (ast.stmt, ast.excepthandler, ast.match_case))]
+        blocks = (ast.stmt, ast.excepthandler, ast.match_case)
+        targets = [()] + [p for p, n in O.iter_nodes(tree0) if isinstance(n, blocks) and (
+            tier == 'thorough' or any(isinstance(c, blocks) for c in ast.iter_child_nodes(n)))]  # quick: the root and every block
         ops = list(E.enumerate_ops(src0, nk=1, nks=1, forms=('src',), opts=({},), kinds=('line_comment', 'docstr', 'remove', 'insert'),
                                    lc_texts=('a much longer comment', None)))
         for tp in targets:
